@@ -87,7 +87,10 @@ fn set_expr(e: &SetExpr, s: &mut String, top: bool) {
             if !top {
                 s.push('(');
             }
-            set_expr(left, s, false);
+            match &**left {
+                SetExpr::Select(sel) if top => select(sel, s),
+                _ => set_expr(left, s, false),
+            }
             s.push_str(match op {
                 SetOp::Union => " UNION ",
                 SetOp::Intersect => " INTERSECT ",
@@ -284,9 +287,18 @@ fn agg_call(f: AggFunc, distinct: bool, arg: Option<&Expr>, filter: Option<&Expr
 }
 
 fn subq(q: &Query, s: &mut String) {
-    s.push('(');
-    query(q, s);
-    s.push(')');
+    let mut inner = String::new();
+    query(q, &mut inner);
+    if inner.starts_with('(') {
+        // `x IN ((SELECT ..) UNION ..)` does not parse: wrap set operations into a derived table
+        s.push_str("(SELECT * FROM (");
+        s.push_str(&inner);
+        s.push_str(") AS sq)");
+    } else {
+        s.push('(');
+        s.push_str(&inner);
+        s.push(')');
+    }
 }
 
 pub(crate) fn expr(e: &Expr, s: &mut String) {
